@@ -47,4 +47,11 @@ def anchorOf (l : List Rect) (c r : Nat) : Nat × Nat :=
   | some m => (m.c1, m.r1)
   | none => (c, r)
 
+/-- lib.go `sortCoordinates` on the four coordinates `rangeRefToCoordinates` returns (`C1:B3` → `B1:C3`) -/
+def sortRect (x1 y1 x2 y2 : Nat) : Rect := ⟨min x1 x2, min y1 y2, max x1 x2, max y1 y2⟩
+
+/-- the stored-list part of merge.go `MergeCell`: the corrected range is appended, nothing else in the list
+is looked at or changed -/
+def mergeCell (l : List Rect) (x1 y1 x2 y2 : Nat) : List Rect := l ++ [sortRect x1 y1 x2 y2]
+
 end XlModel.SaveMerge
